@@ -55,6 +55,23 @@ def handle : List String → String
       else if Backoff.waitHasCtxCase = false then "DIFF model has no ctx case"
       else "OK tags=cancel"
     | _, _, _ => "BAD int"
+  | ["admin", api, script, res, polls, sleeps] =>
+    -- `admin <api> <r|f|x|n,…> <result> <polls> <sleeps>`: one admin call against a scripted master
+    -- (answers to the procedure-state polls), growth replaced by `+1 ns` as for `rpc`
+    let as := (script.splitOn ",").filterMap (fun a => match a with
+      | "r" => some ProcAns.running | "f" => some .finished | "x" => some .exception | "n" => some .notFound
+      | _ => none)
+    if as.length ≠ (script.splitOn ",").length then "BAD script" else
+    let (r, n, ss) := procLoop (fun b => b + 1) Backoff.backoffStart as
+    let rs := match r with | .ok => "ok" | .procException => "procexc" | .notFound => "notfound" | .exhausted => "exhausted"
+    let m := intsStr ss
+    let m := if m = "" then "-" else m
+    -- spec: the call ends with what the first final answer means
+    let firstFinal := (as.find? (· ≠ .running)).map (fun a => match a with
+      | .finished => "ok" | .exception => "procexc" | _ => "notfound")
+    if some res ≠ firstFinal then s!"SPEC key=admin-result-not-the-first-final-answer-{api} got={res} script={script}"
+    else if rs = res && toString n = polls && m = sleeps then s!"OK tags=admin,{api},{res},polls{n}"
+    else s!"DIFF model={rs}/{n}/{m} impl={res}/{polls}/{sleeps}"
   | ["rpc", outs, sleeps] =>
     let cs := (outs.splitOn ",").filterMap parseCls
     if cs.length ≠ (outs.splitOn ",").length then "BAD outcomes" else
